@@ -88,40 +88,13 @@ Definition agree (c : case) : bool :=
   | Valid v ok => Bool.eqb (is_ok (validate_input (dec v))) ok
   end.
 
-(** The document's lines as the property sees them (cut at LF, line ends removed). *)
-Definition logical_lines (form : N) (input : list string) : list str :=
-  match form with
-  | 0%N | 1%N | 4%N | 5%N =>
-      match input with t :: _ => map (rstrip_by is_crlf) (split_on LF (dec t)) | [] => [] end
-  | _ => map (fun l => rstrip_by is_crlf (dec l)) input
-  end.
-
-(** Dsc/Changes pre-split the RAW line iterator (comments included) before the
-    comment filter runs, so a block that consists of comment lines only and is
-    closed by an empty line ends their iteration.  The property is about Deb822
-    paragraphs; for the two subclasses (exercised for the armour path) such
-    documents are outside what [holds] judges.  [true] = no such block. *)
-Definition s_END_PGP : str := [45; 45; 45; 45; 45; 69; 78; 68; 32; 80; 71; 80; 32]%N.   (* "-----END PGP " *)
-Fixpoint comment_block_free (in_block has_payload : bool) (ls : list str) : bool :=
-  match ls with
-  | [] => true
-  | l :: ls' =>
-    if is_comment l then comment_block_free true has_payload ls'
-    else if startswith s_END_PGP l then comment_block_free false false ls'   (* the reader stops after it *)
-    else if forallb bytes_isspace l then
-      (if in_block && negb has_payload then false else comment_block_free false false ls')
-    else comment_block_free true true ls'
-  end.
-
 Definition holds (c : case) : bool :=
   match c with
   | Doc cl ws single form (Some ps) dumps input obs =>
       let ds := map dec_dict ps in
       if forallb valid_para ds && negb (existsb is_nil ds) then
-        if (cl =? 0)%N || comment_block_free false false (logical_lines form input) then
-          let exp := map expected_para ds in
-          result_eqb dicts_eqb (obs_dicts obs) (Ok (if single then firstn 1 exp else exp))
-        else true
+        let exp := map expected_para ds in
+        result_eqb dicts_eqb (obs_dicts obs) (Ok (if single then firstn 1 exp else exp))
       else true
   | _ => true
   end.
